@@ -255,6 +255,18 @@ func (c *SizedLRU) RemoveElement(elem *list.Element) {
 	c.gaugeCacheLogicalBytes.Set(float64(c.uncompressedSize))
 }
 
+// RemoveElementIfUnchanged removes elem from the cache, but only if it is
+// still the entry that is indexed under key and still holds the value `seen`.
+// Use this when elem was looked up earlier and the lock has been released in
+// the meantime: another request may already have removed or replaced it.
+func (c *SizedLRU) RemoveElementIfUnchanged(key string, elem *list.Element, seen lruItem) {
+	cur, ok := c.cache[key]
+	if !ok || cur != elem || elem.Value.(*entry).value != seen {
+		return
+	}
+	c.RemoveElement(elem)
+}
+
 // Len returns the number of items in the cache
 func (c *SizedLRU) Len() int {
 	return len(c.cache)
